@@ -418,9 +418,12 @@ class Check:
             "wall_s": round(time.time() - self.t0, 2),
             "violations": len(self.violations),
         }
-        os.makedirs(EVDIR, exist_ok=True)
-        with open(os.path.join(EVDIR, "%s.json" % self.prop), "w") as f:
-            json.dump(ev, f, indent=1, default=str)
+        if not os.environ.get("NSS_NO_EVIDENCE"):
+            os.makedirs(EVDIR, exist_ok=True)
+            with open(os.path.join(EVDIR, "%s.json" % self.prop), "w") as f:
+                json.dump(ev, f, indent=1, default=str)
+        if getattr(self, "quiet", False):
+            return code
         for ln in lines:
             print(ln)
         print("%s %s: %d/%d obligations discharged, %d undecided, %d violations, %d known findings, %d bounded stand-ins, %.1fs [level=%s]" % (
